@@ -3,9 +3,11 @@ import importlib
 
 # prop: (module, class, block size, quick runs, thorough runs)
 REGISTRY = {
+    'C06': ('sim.machines.listing', 'HistoryMachine', 64, 4000, 60000),
+    'C07': ('sim.machines.listing', 'NavMachine', 64, 4000, 60000),
     'C08': ('sim.machines.edit_grid', 'GridMachine', 64, 8000, 150000),
     'C09': ('sim.machines.edit_grid', 'GridPhysicsMachine', 64, 6000, 100000),
-    'C10': ('sim.machines.edit_geo', 'GeoMachine', 64, 5000, 60000),
+    'C10': ('sim.machines.edit_geo', 'GeoMachine', 64, 2400, 60000),
     'C13': ('sim.machines.store_incon', 'InconMachine', 128, 12000, 200000),
 }
 
